@@ -13,16 +13,18 @@ import (
 )
 
 type FuncSpec struct {
-	File     string            // path under the repo root
-	Recv     string            // receiver type name ("" for plain functions)
-	Name     string            // Go function name
-	LeanName string            // emitted definition name
-	LeanSig  string            // binders and result type
-	Subst    map[string]string // Go expression text -> Lean term
-	Ignore   []string          // statement prefixes that are skipped (locks, logging)
-	Ret      string            // %s-format applied to returned expressions ("" = as is)
-	Final    string            // expression returned when the body falls off the end
-	Fields   map[string]string // assignable selector text -> Lean structure field, e.g. "p.InitialDelay" -> "p.initialDelay"
+	File     string               // path under the repo root
+	Recv     string               // receiver type name ("" for plain functions)
+	Name     string               // Go function name
+	LeanName string               // emitted definition name
+	LeanSig  string               // binders and result type
+	Subst    map[string]string    // Go expression text -> Lean term
+	Ignore   []string             // statement prefixes that are skipped (locks, logging)
+	Ret      string               // %s-format applied to returned expressions ("" = as is)
+	Final    string               // expression returned when the body falls off the end
+	Fields   map[string]string    // assignable selector text -> Lean structure field, e.g. "p.InitialDelay" -> "p.initialDelay"
+	Consts   map[string][2]string // Go expression text -> {file, const name}: replaced by the literal found in the source
+	Calls    map[string]string    // terminal expression statements (by prefix) -> Lean result expression
 }
 
 type trErr struct{ msg string }
@@ -117,6 +119,9 @@ func (t *tr) assign(lhs ast.Expr, rhs string) string {
 	}
 	if f, ok := t.spec.Fields[t.text(lhs)]; ok {
 		parts := strings.SplitN(f, ".", 2)
+		if len(parts) == 1 {
+			return fmt.Sprintf("let %s := %s", f, rhs)
+		}
 		return fmt.Sprintf("let %s := { %s with %s := %s }", parts[0], parts[0], parts[1], rhs)
 	}
 	fail("untranslatable assignment target: %s", t.text(lhs))
@@ -162,6 +167,13 @@ func (t *tr) stmts(list []ast.Stmt, ind string) string {
 		return t.stmts(rest, ind)
 	}
 	switch x := s.(type) {
+	case *ast.ExprStmt:
+		for p, v := range t.spec.Calls {
+			if strings.HasPrefix(t.text(x), p) && len(rest) == 0 {
+				return ind + v
+			}
+		}
+		fail("untranslatable statement: %s", t.text(s))
 	case *ast.ReturnStmt:
 		if len(x.Results) == 0 {
 			if t.spec.Final == "" {
@@ -254,6 +266,16 @@ func Translate(root string, spec *FuncSpec) (def string, err error) {
 			panic(e)
 		}
 	}()
+	if spec.Subst == nil {
+		spec.Subst = map[string]string{}
+	}
+	for goExpr, c := range spec.Consts {
+		v, cerr := constValue(root, c[0], c[1])
+		if cerr != nil {
+			return "", cerr
+		}
+		spec.Subst[goExpr] = v
+	}
 	fset := token.NewFileSet()
 	f, perr := parser.ParseFile(fset, root+"/"+spec.File, nil, 0)
 	if perr != nil {
